@@ -13,8 +13,9 @@ Theorem C18_row :
 Proof. exact table_origin_row. Qed.
 Print Assumptions C18_row.
 
-(* every location that is read has a chain of load items leading back to a root: it is reachable
-   through resolution of enqueued items (the include / folder steps load_history reports) *)
+(* every location that is read is reachable from a root through resolution of enqueued items (folder
+   entries, include lines): a chain of load items back to a root exists.  That load_history reports
+   exactly this chain, with the directive rows, is checked on the implementation by the oracle only. *)
 Theorem C18_history_exists :
   forall (id : Type) (id_eqb : id -> id -> bool),
     (forall a b, id_eqb a b = true <-> a = b) ->
